@@ -48,3 +48,27 @@ def lock_scope(rel, qual, lock_field, guarded_fields):
             fails.append('self.%s is accessed before the guard is taken' % f)
     line = sf.src.count('\n', 0, it.sig_start) + 1
     return {'status': 'fail' if fails else 'ok', 'fails': fails, 'src': '%s:%d' % (rel, line)}
+
+
+def fresh_timeout_per_read(rel, qual, param):
+    """Every socket read of the receive loop is bounded by a FRESH time-out of the full configured duration
+    (`tokio::time::timeout(<param>, <x>.read_exact(..))`): a quiet period filled with ticks then never uses up a
+    shared budget.  Time itself is not modelled by either verifier; this is a syntactic obligation."""
+    try:
+        sf = extract.SourceFile(rel)
+        it = sf.find_fn(qual)
+    except extract.LostAnchor as e:
+        return {'status': 'undecided', 'reason': str(e)}
+    body = sf.src[it.body_open + 1:it.end - 1]
+    msk = mask(body)
+    reads = [m.start() for m in re.finditer(r'\bread_exact\s*\(', msk)]
+    if not reads:
+        return {'status': 'undecided', 'reason': '%s no longer reads with read_exact: cannot judge' % qual}
+    fails = []
+    for pos in reads:
+        pre = re.sub(r'\s+', '', msk[max(0, pos - 120):pos])
+        if not re.search(r'tokio::time::timeout\(%s,[\w.]+\.$' % re.escape(param), pre):
+            line = sf.src.count('\n', 0, it.body_open + 1 + pos) + 1
+            fails.append('the read at %s:%d is not wrapped in tokio::time::timeout(%s, ..): its time budget is not renewed per read' % (rel, line, param))
+    line = sf.src.count('\n', 0, it.sig_start) + 1
+    return {'status': 'fail' if fails else 'ok', 'fails': fails, 'src': '%s:%d' % (rel, line)}
